@@ -74,8 +74,8 @@ TIME_REVERSAL_INVARIANT = ['Periodogram', 'pcorrelogram', 'pyule', 'pburg', 'pmo
 ONESIDED_IS_TWICE_HALF = ['pburg', 'pyule', 'pcovar', 'pmodcovar', 'parma', 'pma', 'pminvar', 'MultiTapering']
 
 
-def psd_of(cls, x, cfg, NFFT, sampling=1.0):
-    p = E.build(cls, x, cfg, NFFT=NFFT, sampling=sampling, scale_by_freq=False)
+def psd_of(cls, x, cfg, NFFT, sampling=1.0, route='fresh', prev=None):
+    p = E.build(cls, x, cfg, NFFT=NFFT, sampling=sampling, scale_by_freq=False, route=route, prev=prev)
     return np.array(p.psd)
 
 
@@ -89,28 +89,28 @@ def rel_err(a, b):
     return float(np.max(np.abs(a - b)) / s)
 
 
-def check_case(kind, cls, x, cfg, NFFT, m, rtol=1e-6):
+def check_case(kind, cls, x, cfg, NFFT, m, rtol=1e-6, route='fresh'):
     """returns None if the clause holds, else a description"""
     n = np.arange(len(x))
     if kind == 'shift':
-        p0 = psd_of(cls, x, cfg, NFFT); p1 = psd_of(cls, x * np.exp(2j * np.pi * m * n / NFFT), cfg, NFFT)
+        p0 = psd_of(cls, x, cfg, NFFT); p1 = psd_of(cls, x * np.exp(2j * np.pi * m * n / NFFT), cfg, NFFT, route=route, prev=x)
         if len(p0) != NFFT:
             return 'two-sided estimate has %d values for NFFT=%d' % (len(p0), NFFT)
         e = rel_err(p1, np.roll(p0, m))
         return None if e <= rtol else 'estimate of the modulated data is not the estimate rotated by m=%d bins (relative error %.3g)' % (m, e)
     if kind == 'mirror':
-        p0 = psd_of(cls, x, cfg, NFFT); p1 = psd_of(cls, np.conj(x), cfg, NFFT)
+        p0 = psd_of(cls, x, cfg, NFFT); p1 = psd_of(cls, np.conj(x), cfg, NFFT, route=route, prev=x)
         want = p0[(-np.arange(NFFT)) % NFFT]
         e = rel_err(p1, want)
         return None if e <= rtol else 'estimate of the conjugated data is not the mirrored estimate (relative error %.3g)' % e
     if kind == 'fold':
-        pr = psd_of(cls, np.real(x), cfg, NFFT); pc = psd_of(cls, np.real(x).astype(complex), cfg, NFFT)
+        pr = psd_of(cls, np.real(x), cfg, NFFT); pc = psd_of(cls, np.real(x).astype(complex), cfg, NFFT, route=route, prev=x)
         e = rel_err(pr, 2 * pc[:len(pr)])
         if len(pr) != (NFFT // 2 + 1 if NFFT % 2 == 0 else (NFFT + 1) // 2):
             return 'one-sided estimate has %d values for NFFT=%d' % (len(pr), NFFT)
         return None if e <= rtol else 'one-sided estimate is not twice the first half of the two-sided one (relative error %.3g)' % e
     if kind == 'reversal':
-        p0 = psd_of(cls, x, cfg, NFFT); p1 = psd_of(cls, np.conj(x[::-1]), cfg, NFFT)
+        p0 = psd_of(cls, x, cfg, NFFT); p1 = psd_of(cls, np.conj(x[::-1]), cfg, NFFT, route=route, prev=x)
         e = rel_err(p1, p0)
         return None if e <= rtol else 'estimate of the conjugated, time-reversed data differs (relative error %.3g)' % e
     raise KeyError(kind)
@@ -121,7 +121,7 @@ def replay(rep):
     if r['datatype'] == 'real':
         x = np.real(x)
     try:
-        return check_case(r['clause'], r['estimator'], x, r['cfg'], r['NFFT'], r.get('m', 0)) is None
+        return check_case(r['clause'], r['estimator'], x, r['cfg'], r['NFFT'], r.get('m', 0), route=r.get('route', 'fresh')) is None
     except Exception:
         return False
 
@@ -251,7 +251,10 @@ def run(ctx):
         clause, cls = plan[it % len(plan)]
         N = int(rng.integers(16, 49))
         NFFT = int(rng.choice([N, N + 1, N + 2, N + 5, 2 * N, 2 * N + 1, 64, 67])); NFFT = max(NFFT, N)
-        x, kind = E.gen_data(rng, N, True)
+        # the first pass over the plan: real samples declared complex (zero imaginary part), for every clause and class
+        x, kind = E.gen_data(rng, N, True, 'realc' if it < len(plan) else None)
+        route = E.pick_route(rng)               # how the object holding the transformed data got them (fresh / re-assigned)
+        ctx.count('search/route/%s' % route)
         cfg = E.default_cfg(cls, N, rng, True)
         if cls == 'pcorrelogram':
             NFFT = max(NFFT, 2 * cfg['lag'] + 2)
@@ -262,9 +265,9 @@ def run(ctx):
         ctx.count('search/%s/%s/%s' % (clause, cls, 'NFFT-even' if NFFT % 2 == 0 else 'NFFT-odd'))
         ctx.case((clause, cls, json.dumps(jcfg(cfg), sort_keys=True), NFFT, m, x.tobytes()), nontrivial=(clause != 'shift' or m % NFFT != 0),
                  sample={'clause': clause, 'estimator': cls, 'cfg': jcfg(cfg), 'N': N, 'NFFT': NFFT, 'm': m, 'kind': kind})
-        rep = {'clause': clause, 'estimator': cls, 'cfg': jcfg(cfg), 'NFFT': NFFT, 'm': m, 'x': vlib.hexv(x), 'datatype': tag}
+        rep = {'clause': clause, 'estimator': cls, 'cfg': jcfg(cfg), 'NFFT': NFFT, 'm': m, 'x': vlib.hexv(x), 'datatype': tag, 'route': route}
         try:
-            what = check_case(clause, cls, x, cfg, NFFT, m)
+            what = check_case(clause, cls, x, cfg, NFFT, m, route=route)
         except Exception as e:
             what = 'raised %s: %s' % (type(e).__name__, str(e)[:100])
         if what is not None:
